@@ -72,7 +72,7 @@ Backwards(a, p) == Rxn(Normalise(a.nu, p), p, a.X)       \* p, a product, become
 Pre(s, op, a) ==
   CASE op = "load" -> /\ a.x \in Slots /\ a.i \in DOMAIN Lib /\ a.r \in 1..NC /\ RLt(Lib[a.i][a.r], Zero)
     [] op = "set_feed" -> Len(a.f) = NC /\ NonNegV(a.f)
-    [] op = "react" -> a.x \in Slots /\ IsRxn(s.Rx[a.x]) /\ a.how \in {"stream", "stream_wt", "stream_other", "array", "sparse"}
+    [] op = "react" -> a.x \in Slots /\ IsRxn(s.Rx[a.x]) /\ a.how \in {"stream", "stream_wt", "stream_wt_mol", "stream_other", "stream_other_reset", "array", "sparse"}
     [] op = "react_set" -> s.RS.kind # "none" /\ a.how \in {"stream", "stream_wt", "array"}
     [] op \in {"add", "sub"} -> /\ {a.d, a.x, a.y} \subseteq Slots /\ IsRxn(s.Rx[a.x]) /\ IsRxn(s.Rx[a.y])
                                 /\ s.Rx[a.x].r = s.Rx[a.y].r
@@ -90,6 +90,11 @@ Pre(s, op, a) ==
     [] op = "mkset" -> /\ a.kind \in {"parallel", "series", "system"} /\ a.xs # <<>>
                        /\ \A i \in DOMAIN a.xs : a.xs[i] \in Slots /\ IsRxn(s.Rx[a.xs[i]])
     [] op \in {"item_set_X", "set_set_X"} -> s.RS.kind \in {"parallel", "series"} /\ a.i \in DOMAIN s.RS.items
+    [] op \in {"item_imul", "item_idiv"} -> s.RS.kind \in {"parallel", "series"} /\ a.i \in DOMAIN s.RS.items /\ RLt(Zero, a.q)
+    [] op = "set_assign_X" -> s.RS.kind \in {"parallel", "series"} /\ Len(a.Xs) = Len(s.RS.items)
+    [] op = "reduce" -> s.RS.kind = "parallel"
+    \* the same reaction re-based to weight (its molar meaning is unchanged)
+    [] op \in {"to_wt", "to_mol"} -> {a.d, a.x} \subseteq Slots /\ IsRxn(s.Rx[a.x])
     [] OTHER -> FALSE
 
 \* a reaction applied to the feed must raise instead of producing a negative flow
@@ -115,6 +120,11 @@ Post(s, op, a) ==
     [] op = "mkset" -> [s EXCEPT !.RS = [kind |-> a.kind,      \* a reaction system applies its reactions in series
                                         items |-> [i \in DOMAIN a.xs |-> s.Rx[a.xs[i]]]]]
     [] op \in {"item_set_X", "set_set_X"} -> [s EXCEPT !.RS.items[a.i].X = a.X]
+    [] op = "item_imul" -> [s EXCEPT !.RS.items[a.i].X = RMul(@, a.q)]
+    [] op = "item_idiv" -> [s EXCEPT !.RS.items[a.i].X = RMul(@, RInv(a.q))]
+    [] op = "set_assign_X" -> [s EXCEPT !.RS.items = [i \in DOMAIN s.RS.items |-> [s.RS.items[i] EXCEPT !.X = a.Xs[i]]]]
+    [] op = "reduce" -> s
+    [] op \in {"to_wt", "to_mol"} -> [s EXCEPT !.Rx[a.d] = s.Rx[a.x]]
 
 ---------------------------------------------------------------------------
 TypeOKs(s) == /\ Len(s.m) = NC /\ \A c \in 1..NC : s.m[c][2] > 0
@@ -126,23 +136,33 @@ TypeOK == TypeOKs(S)
 AllBalanced == \A x \in Slots : IsRxn(Rx[x]) => Balanced(Rx[x].nu)
 SetBalanced == \A i \in DOMAIN RS.items : Balanced(RS.items[i].nu)
 
+\* magnitudes TLC's 32-bit integers can carry through a product; the driver does not log larger values (obs.too_big)
+Lim == 2000
+BigQ(x) == Abs(x[1]) > Lim \/ x[2] > Lim
+BigRxn(x) == IsRxn(x) /\ (BigQ(x.X) \/ \E c \in 1..NC : BigQ(x.nu[c]))
+TooBig(s) == (\E c \in 1..NC : BigQ(s.m[c])) \/ (\E x \in Slots : BigRxn(s.Rx[x])) \/ (\E i \in DOMAIN s.RS.items : BigRxn(s.RS.items[i]))
 \* the slots an operation may write
-Touched(e) == IF e.op \in {"add", "sub", "mul", "rmul", "div", "neg", "copy", "backwards"} THEN {e.a.d}
+Touched(e) == IF e.op \in {"add", "sub", "mul", "rmul", "div", "neg", "copy", "backwards", "to_wt", "to_mol"} THEN {e.a.d}
               ELSE IF e.op \in {"iadd", "isub", "imul", "idiv", "set_X", "load"} THEN {e.a.x} ELSE {}
 \* e = [op, a, post, obs]: obs = [exc, same (result is the same object as an operand), operands_ok, setX_seen]
 Judge(s, e) ==
   LET p == Post(s, e.op, e.a)
       u == e.post
-  IN IF e.op \in {"react", "react_set"} THEN
+  IN IF e.obs.too_big THEN      \* the real result has values beyond Lim (not logged): fine only if the expected result has, too
+          (IF TooBig(p) \/ MustRaise(s, e.op, e.a) THEN "ok" ELSE "result.magnitude")
+     ELSE IF e.op \in {"react", "react_set"} THEN
           IF MustRaise(s, e.op, e.a) THEN (IF e.obs.exc = None THEN "negative_flow_not_rejected" ELSE "ok")
           ELSE IF e.obs.exc # None THEN "exception"
           ELSE IF u.m # p.m THEN
-               (IF AtomFlow(u.m) # AtomFlow(s.m) THEN "atoms_not_conserved"
+               (IF \E c \in 1..NC : u.m[c][2] <= 0 THEN "products.not_a_number"
+                ELSE IF AtomFlow(u.m) # AtomFlow(s.m) THEN "atoms_not_conserved"
                 ELSE IF e.op = "react" /\ u.m[s.Rx[e.a.x].r] # p.m[s.Rx[e.a.x].r] THEN "conversion"
                 ELSE "products")
           ELSE IF u.Rx # s.Rx \/ u.RS # s.RS THEN "reaction_changed_by_application"
           ELSE "ok"
      ELSE IF e.obs.exc # None THEN "exception"
+     ELSE IF ~e.obs.held_agree THEN "set_item_out_of_sync"       \* items obtained earlier and the set disagree on a conversion
+     ELSE IF e.op = "reduce" /\ e.obs.reduced_m # ApplyParallel(s.RS.items, s.m) THEN "reduce.not_equivalent"
      ELSE IF u.m # p.m THEN "feed_changed"
      ELSE IF \E x \in Slots : x \notin Touched(e) /\ u.Rx[x] # s.Rx[x] THEN "operand_changed"
      ELSE IF u.Rx # p.Rx THEN
@@ -150,7 +170,7 @@ Judge(s, e) ==
            ELSE IF \E x \in Slots : u.Rx[x].k = "rxn" /\ p.Rx[x].k = "rxn" /\ u.Rx[x].r # p.Rx[x].r THEN "result.reactant"
            ELSE "result.stoichiometry")
      ELSE IF u.RS # p.RS THEN "set"
-     ELSE IF e.op \in {"add", "sub", "mul", "rmul", "div", "neg", "copy", "backwards"} /\ e.obs.same THEN "result_is_operand"
+     ELSE IF e.op \in {"add", "sub", "mul", "rmul", "div", "neg", "copy", "backwards", "to_wt", "to_mol"} /\ e.obs.same THEN "result_is_operand"
      ELSE "ok"
 ObsLegal(e) == TRUE
 Suspended(e) == FALSE
